@@ -266,4 +266,6 @@ def run(ctx):
     window_rule(ctx, repo)
     from sa.rules import intloop
     intloop.run(ctx, repo, 'C13.7-int-window')
+    from sa.rules import memo
+    memo.run_for(ctx, repo, 'C13')
     return report.finish(ctx, EXPLANATION)
